@@ -440,12 +440,25 @@ DIRECTED_ARRAYS = [
     ('iferror-scalar-with-array-fallback', 'Q1:S3', '=IFERROR(A4/B2,A1:B2)',
      ((1, 10, '#N/A'), (2, 0, '#N/A'), ('#N/A', '#N/A', '#N/A'))),
     ('iferror-scalar-with-array-fallback', 'M5:N6', '=IFNA(A4,A1:B2)', ((6, 6), (6, 6))),
+    # elements that are equal as python values and differ in type (1.0, TRUE, 1; 0.0, FALSE): each element is its own
+    ('equal-elements-of-different-type', 'E10:E15', '=ISNUMBER(C1:C6)', (True, False, True, False, True, False)),
+    ('equal-elements-of-different-type', 'F10:F15', '=ISLOGICAL(C1:C6)', (False, True, False, True, False, False)),
+    ('equal-elements-of-different-type', 'G10:G15', '=ISTEXT(C1:C6)', (False, False, False, False, False, True)),
+    # (text functions over 1, TRUE, 0, FALSE: how a float is rendered as text is not this property's matter)
+    ('equal-elements-of-different-type', 'H10:H13', '=LEN(D1:D4)', (1, 4, 1, 5)),
+    ('equal-elements-of-different-type', 'I10:I13', '=LEFT(D1:D4,1)', ('1', 'T', '0', 'F')),
+    ('equal-elements-of-different-type', 'J10:J13', '=D1:D4&""', ('1', 'TRUE', '0', 'FALSE')),
+    ('equal-elements-of-different-type', 'K10:K15', '=C1:C6=1', (True, False, False, False, True, False)),
+    ('equal-elements-of-different-type', 'L10:L13', '=UPPER(D1:D4)', ('1', 'TRUE', '0', 'FALSE')),
+    ('equal-elements-of-different-type', 'M10:M13', '=ISLOGICAL(D1:D4)', (False, True, False, True)),
 ]
 
 
 def directed_arrays(ctx):
     from vp.checks.c05 import elements
-    cells = {'A1': 1, 'A2': 2, 'A3': 3, 'B1': 10, 'B2': 0, 'A4': 6}
+    cells = {'A1': 1, 'A2': 2, 'A3': 3, 'B1': 10, 'B2': 0, 'A4': 6,
+             'C1': 1.0, 'C2': True, 'C3': 0.0, 'C4': False, 'C5': 1, 'C6': '1',
+             'D1': 1, 'D2': True, 'D3': 0, 'D4': False}
     for sheet in ('Sheet1', 'My Sheet'):
         for tag, target, formula, want in DIRECTED_ARRAYS:
             spec = {'sheets': [[sheet, cells]], 'names': {}, 'arrays': [[sheet, target, formula]], 'calc': None}
